@@ -32,6 +32,7 @@ func analyzeFold(p *core.Program, fi *core.FuncInfo) *foldLoop {
 	}
 	info := fi.Pkg.TypesInfo
 	ip := &bits.Interp{P: p}
+	ip.TableAlias = crcTableAliases(p, fi)
 	body := fi.Decl.Body.List
 	// unwrap `if sz := len(b); sz == 0 { return 0 } else { ... }` and `if b == nil { return 0 }`
 	for len(body) > 0 {
@@ -569,4 +570,56 @@ func checkCRCFunc(p *core.Program, r *core.Report, rule, relPkg, fn string, widt
 	wantFinal := bits.Not(bits.Input("acc", width))
 	r.Check(bits.Equal(fl.Final, wantFinal), rule, c+" final", pos, "result = ^acc", "final transformation is not the complement of the accumulator: "+fl.Final.String())
 	return fl
+}
+
+// crcTableAliases: width variants of the CRC table. A package-level integer table of 256 entries next
+// to the CRC table, never assigned after its initialisation, whose entries (evaluated from the
+// initialiser: a literal, or a builder run over the CRC table) are the 32-bit CRC entries as they are,
+// zero-extended or sign-extended, is read as the CRC table itself with that extension.
+func crcTableAliases(p *core.Program, fi *core.FuncInfo) func(obj types.Object) (string, int, bool, bool) {
+	type alias struct {
+		sext bool
+		ok   bool
+	}
+	cache := map[types.Object]alias{}
+	main := crcTableName(p)
+	want := crc32Table()
+	return func(obj types.Object) (string, int, bool, bool) {
+		v, isVar := obj.(*types.Var)
+		if !isVar || v.Name() == main || v.Pkg() == nil {
+			return "", 0, false, false
+		}
+		a, seen := cache[obj]
+		if !seen {
+			ce := &constEvaluator{p: p}
+			if ce.pkgVarStable(v) {
+				if val, ok := ce.evalPkgVar(fi, v); ok && val != nil && val.k == 'a' && len(val.arr) == 256 {
+					plain, zext, sext := true, true, true
+					for i, x := range val.arr {
+						u := uint64(x)
+						if u != uint64(want[i]) {
+							zext = false
+						}
+						if u != uint64(int64(int32(want[i]))) {
+							sext = false
+						}
+						if uint32(u) != want[i] || u>>32 != 0 {
+							plain = false
+						}
+					}
+					switch {
+					case plain || zext:
+						a = alias{sext: false, ok: true}
+					case sext:
+						a = alias{sext: true, ok: true}
+					}
+				}
+			}
+			cache[obj] = a
+		}
+		if !a.ok {
+			return "", 0, false, false
+		}
+		return main, 64, a.sext, true
+	}
 }
